@@ -317,7 +317,7 @@ def lookupOutstanding (s : State) (i : Nat) : Option Frame :=
   (s.outstanding.find? (fun e => e.1 == i)).map (·.2)
 
 def removeOutstanding (s : State) (i : Nat) : List (Nat × Frame) :=
-  s.outstanding.filter (fun e => e.1 != i)
+  s.outstanding.eraseP (fun e => e.1 == i)
 
 inductive AckRes where
   | skip        -- not an outstanding frame (the ackhandler reports each frame at most once: C06)
